@@ -299,6 +299,7 @@ class Store:
     def canon(self):
         """hashable key, with load ids renamed by first occurrence"""
         ren = {}
+        memo = {}
 
         def r(v):
             if not isinstance(v, tuple):
@@ -307,7 +308,11 @@ class Store:
                 if v not in ren:
                     ren[v] = ("load", len(ren))
                 return ren[v]
-            return (v[0],) + tuple(r(x) for x in v[1:])
+            got = memo.get(v)
+            if got is None:
+                got = (v[0],) + tuple(r(x) for x in v[1:])
+                memo[v] = got
+            return got
 
         items = []
         for k in sorted(self.loc, key=str):
@@ -499,6 +504,8 @@ class Interp:
         c = op_const(o)
         if c is not None:
             v = c.get("int")
+            if isinstance(v, str):
+                v = int(v)
             if "big" in c:
                 v = int(c["big"])
             if v is not None:
@@ -715,6 +722,10 @@ class Interp:
                     ov = ("ovf_" + tag, a, b)
                     self.setval(st, rv, wrap(exact, arng))
                     fits = exact.lo >= arng[0] and exact.hi <= arng[1]
+                    if not fits and base == "Sub" and arng[0] == 0 and exact.hi <= arng[1] and self.known_lt(st, b, a, False):
+                        fits = True
+                        exact = AV(0, exact.hi)
+                        self.setval(st, rv, wrap(exact, arng))
                     never = exact.hi < arng[0] or exact.lo > arng[1]
                     self.setval(st, ov, AV.const(0) if fits else (AV.const(1) if never else AV(0, 1)))
                     st.val[("exact", rv)] = exact
@@ -722,6 +733,23 @@ class Interp:
                     rv = self.fresh(st, aty, ("ovfres", where))
                     ov = self.fresh(st, "bool", ("ovfflag", where))
                 l = p["l"]
+                rva = st.val.get(rv)
+                if rva is not None and rva.is_const() and st.val.get(ov) == AV.const(0):
+                    rv = ("c", rva.lo)
+                    ov = ("c", 0)
+                elif self.depth(rv) > 6:
+                    ex = st.val.get(("exact", rv))
+                    nrv = self.shallow(st, rv, aty, where)
+                    if ex is not None:
+                        st.val[("exact", nrv)] = ex
+                    # the flag keeps referring to the original expression only through its value
+                    nov = self.fresh(st, "bool", ("ovfflag", where))
+                    if ov in st.val:
+                        st.val[nov] = st.val[ov]
+                    st.val[("ovfof", nov)] = AV.const(0)
+                    self._ovf_alias = getattr(self, "_ovf_alias", {})
+                    self._ovf_alias[nov] = nrv
+                    rv, ov = nrv, nov
                 st.cell[(l, (("f", 0),))] = rv
                 st.cell[(l, (("f", 1),))] = ov
                 st.loc[l] = ("tuple", rv, ov)
@@ -810,7 +838,45 @@ class Interp:
             vid = self.fresh(st, pty, ("other", where))
         if vid is None:
             vid = self.fresh(st, pty, ("none", where))
+        vid = self.shallow(st, vid, pty, where)
         self.write_place(st, p, vid)
+
+    _depth_cache = {}
+
+    def depth(self, v):
+        if not isinstance(v, tuple) or v[0] in ("c", "k", "load", "param", "phi"):
+            return 0
+        d = Interp._depth_cache.get(v)
+        if d is None:
+            d = 1 + max([self.depth(x) for x in v[1:] if isinstance(x, tuple)] or [0])
+            if len(Interp._depth_cache) > 200000:
+                Interp._depth_cache.clear()
+            Interp._depth_cache[v] = d
+        return d
+
+    def shallow(self, st, vid, ty, where):
+        """expressions nested deeper than a few levels are replaced by an opaque value with the same abstract value"""
+        av0 = st.val.get(vid) if isinstance(vid, tuple) and vid[0] not in ("c", "k", "tuple", "range", "rangefrom", "rangeto", "array", "ref", "refl", "refc") else None
+        if av0 is not None and av0.is_const() and not av0.is_bottom():
+            return ("c", av0.lo)      # constant folding keeps ids small and makes equal constants one id
+        if self.depth(vid) <= 6 or (isinstance(vid, tuple) and vid[0] in ("eq", "ne", "lt", "le", "gt", "ge", "not")):
+            return vid
+        av = st.val.get(vid)
+        nv = self.fresh(st, ty, ("deep", where))
+        if av is not None:
+            st.val[nv] = av
+        # keep what is known relationally about the old expression
+        for (a, b) in list(st.lt):
+            if a == vid:
+                st.lt.add((nv, b))
+            if b == vid:
+                st.lt.add((a, nv))
+        for (a, b) in list(st.le):
+            if a == vid:
+                st.le.add((nv, b))
+            if b == vid:
+                st.le.add((a, nv))
+        return nv
 
     def _operand_ty(self, o):
         c = op_const(o)
@@ -892,6 +958,9 @@ class Interp:
             cv = self.val(st, c) or AV(0, 1)
             exp = 1 if t["exp"] else 0
             msg = t["msg"]
+            if msg.startswith("other:"):
+                # compiler-inserted pointer validity checks (-Zub-checks), not arithmetic of the program
+                return [(t["t"], st)]
             ok = cv.is_const() and cv.lo == exp
             if not ok and msg == "bounds":
                 # assert(Lt(index, len))
@@ -907,6 +976,11 @@ class Interp:
             s2 = st.copy()
             self.refine(s2, c, AV.const(exp))
             # after a passed overflow check the result is the exact value
+            if getattr(self, "_ovf_alias", {}).get(c) is not None:
+                rv = self._ovf_alias[c]
+                ex = s2.val.get(("exact", rv))
+                if ex is not None and rv in s2.val and not s2.val[rv].meet(ex).is_bottom():
+                    s2.val[rv] = s2.val[rv].meet(ex)
             if isinstance(c, tuple) and c[0].startswith("ovf_"):
                 rv = (c[0][4:], c[1], c[2])
                 ex = s2.val.get(("exact", rv))
